@@ -77,6 +77,7 @@ func zzOp(fs filesystem.Filespace, g int, k int, val []byte) error {
 // no duplicates, the index stays consistent, nothing panics or deadlocks.
 func ZZVerifC09Distinct() {
 	nd.Schedule(nd.Param("P", 2))
+	nd.Races()
 	fsi, _ := NewFilespace()
 	fs := fsi.(*Filespace)
 	nd.Assume(fs.WriteFile("seed", []byte("s"), filesystem.DefaultUnixFileMode) == nil)
@@ -127,6 +128,7 @@ func ZZVerifC09Distinct() {
 // concurrent reader only ever sees a complete written value.
 func ZZVerifC09SameNode() {
 	nd.Schedule(nd.Param("P", 2))
+	nd.Races()
 	fsi, _ := NewFilespace()
 	fs := fsi.(*Filespace)
 	mode := nd.Choose("mode", 4)
@@ -198,4 +200,112 @@ func ZZVerifC09SameNode() {
 	}
 	nd.Assert(zzIndexConsistent(fs.root), "C09/index-consistent")
 	nd.Reach("C09/same-end")
+}
+
+// zzSharedOp: one operation of the mix on the SHARED file d/f, directory d and
+// copy targets. complete() judges every content that a reading operation saw.
+func zzSharedOp(fs filesystem.Filespace, k int, val []byte, complete func([]byte) bool) {
+	switch k {
+	case 0:
+		fs.WriteFile("d/f", val, filesystem.DefaultUnixFileMode)
+	case 1:
+		if w, err := fs.Writer("d/f"); err == nil {
+			w.Write(val[:1])
+			w.Write(val[1:])
+			w.Close()
+		}
+	case 2:
+		if d, err := fs.ReadFile("d/f"); err == nil {
+			nd.Assert(complete(d), "C09/mix-readfile-sees-complete-value")
+		}
+	case 3:
+		if r, err := fs.Reader("d/f"); err == nil {
+			buf := make([]byte, 4)
+			n, _ := r.Read(buf)
+			r.Close()
+			nd.Assert(complete(buf[:n]), "C09/mix-reader-sees-complete-value")
+		}
+	case 4:
+		if inf, err := fs.Lstat("d/f"); err == nil {
+			sz := inf.Size()
+			nd.Assert(sz == 0 || sz == 2, "C09/mix-stat-size-of-complete-value")
+			inf.ModTime()
+			inf.Name()
+		}
+	case 5:
+		if l, err := fs.ReadDir("d"); err == nil {
+			for i, inf := range l {
+				inf.Size()
+				inf.ModTime()
+				inf.IsDir()
+				for j := 0; j < i; j++ {
+					nd.Assert(l[j].Name() != inf.Name(), "C09/listing-duplicates")
+				}
+			}
+		}
+	case 6:
+		fs.Remove("d/f")
+	case 7:
+		fs.RemoveAll("d")
+	case 8:
+		fs.CopyFile("d/f", "d/g")
+	case 9:
+		fs.Copy("d", "e")
+	case 10:
+		fs.MkdirAll("d/x", filesystem.DefaultUnixDirMode)
+	case 11:
+		fs.IsExist("d/f")
+		fs.IsFile("d/f")
+		fs.IsDir("d")
+	}
+}
+
+// ZZVerifC09Mix: G goroutines each apply one symbolic operation of the whole
+// mix (write, stream write, read, stream read, stat, list, remove, recursive
+// remove, file copy, tree copy, mkdir, queries) to the same file and
+// directory: no panic, deadlock or data race; every reader sees a complete
+// written value; afterwards the shared file (if it still exists) and its
+// copies hold complete values, listings have no duplicates and the index is
+// consistent.
+func ZZVerifC09Mix() {
+	nd.Schedule(nd.Param("MP", 1))
+	nd.Races()
+	fsi, _ := NewFilespace()
+	fs := fsi.(*Filespace)
+	nd.Assume(fs.WriteFile("d/f", []byte("00"), filesystem.DefaultUnixFileMode) == nil)
+	g := nd.Param("MG", 2)
+	kinds := make([]int, g)
+	vals := make([][]byte, g)
+	for i := 0; i < g; i++ {
+		kinds[i] = nd.IntRange("kind", 0, 11)
+		vals[i] = nd.Bytes("val", 2)
+	}
+	complete := func(d []byte) bool {
+		ok := bytes.Equal(d, []byte("00"))
+		for i := 0; i < g; i++ {
+			ok = nd.Or(ok, bytes.Equal(d, vals[i]))
+		}
+		return ok
+	}
+	var wg sync.WaitGroup
+	for i := 0; i < g; i++ {
+		wg.Add(1)
+		go func(i int) {
+			defer wg.Done()
+			zzSharedOp(fs, kinds[i], vals[i], complete)
+		}(i)
+	}
+	wg.Wait()
+	for _, p := range []string{"d/f", "d/g", "e/f", "e/g"} {
+		if d, err := fs.ReadFile(p); err == nil {
+			nd.Assert(complete(d), "C09/mix-file-holds-complete-value")
+		}
+	}
+	for _, p := range []string{".", "d", "e"} {
+		if fs.IsDir(p) {
+			nd.Assert(zzNoDup(fs, p), "C09/listing-duplicates")
+		}
+	}
+	nd.Assert(zzIndexConsistent(fs.root), "C09/index-consistent")
+	nd.Reach("C09/mix-end")
 }
